@@ -121,6 +121,12 @@ pub fn cases(prop: &str, tier: Tier, seed: u64) -> Vec<CaseDesc> {
             base.extend(corpus::fixture_specs(true).into_iter().filter(|s| s.contains("name") || s.contains("invalid") || s.contains("import") || s.contains("simd") || s.contains("atomic") || s.contains("mem")));
             base.extend(corpus::probe_specs());
             base.extend(g("customs", 30, 1500));
+            // inputs with well-formed DWARF: .debug_* must be carried iff generate_dwarf
+            for (i, b) in g("tiny", 6, 200).into_iter().enumerate() {
+                base.push(format!("dwarf:{}:{}:{}", if i % 2 == 0 { 4 } else { 5 }, ["f", "s", "z"][i % 3], b));
+            }
+            base.push("dwarf:4:f:leb:2:127:0".to_string());
+            base.push("dwarf:5:s:leb:129:60:0".to_string());
             base.extend(g("names", 10, 500));
             base.extend(g("full", 10, 500));
             // invalid inputs: the callback must not run
